@@ -374,6 +374,47 @@ def ob_reactions_dynamic(algo):
     return Verdict(DISCHARGED, backend="native run", sub=n)
 
 
+def ob_energy_inelastic(kind):
+    """history-dependent simulation in its elastic range (virgin state): the reported stored energy equals one half of u'Ku and the deformation energy of the elastic
+    simulation of the same state -- plane strain, plane stress (the out-of-plane strain that makes sigma_zz vanish belongs to the energy) and 3-D."""
+    from EasyFEA import Models, Simulations
+    from . import patches
+    dim = 3 if kind == "3d" else 2
+    et = "TETRA4" if dim == 3 else "TRI6"
+    coords, connect = patches.star_patch(et)
+    mesh = patches.real_mesh(et, coords, connect)
+    IE = Models.InElastic
+    el3 = Models.Elastic.Isotropic(3, E=3.0, v=0.3)
+    kw = dict(planeStress=(kind == "ps"), thickness=0.7) if dim == 2 else {}
+    beh = IE.Behavior(dim, el3, yieldSurface=IE.Yield.VonMises(1e6), hardening=IE.IsotropicHardening.Linear(0.4), **kw)
+    s_ = Simulations.InElastic(mesh, beh)
+    import contextlib, io
+    rng = np.random.default_rng(4)
+    co = np.asarray(mesh.coord)
+    order_x = np.argsort(co[:, 0])
+    n0, n1 = order_x[:4], order_x[-1:]                      # enough clamped nodes to remove every rigid motion
+    names = ["x", "y", "z"][:dim]
+    s_.add_dirichlet(n0, [0] * dim, names)
+    s_.add_dirichlet(n1, [1e-3], ["x"])
+    with contextlib.redirect_stdout(io.StringIO()):
+        s_.Solve()
+    u = 1e-3 * rng.normal(size=mesh.Nn * dim)            # an arbitrary (non-equilibrium) state in the elastic range
+    s_._Set_solutions(s_.problemType, u, np.zeros_like(u), np.zeros_like(u))
+    ref = Simulations.Elastic(mesh, Models.Elastic.Isotropic(dim, E=3.0, v=0.3, **kw) if dim == 2 else Models.Elastic.Isotropic(3, E=3.0, v=0.3))
+    ref._Set_solutions(ref.problemType, u)
+    K = ref.Get_K_C_M_F()[0]
+    half = 0.5 * float(u @ (K @ u))
+    en = s_.Results_dict_Energy()
+    vals = [float(v) for v in en.values()]
+    W = float(ref.Result("Wdef"))
+    got = vals[0]
+    e1, e2 = abs(got - half) / abs(half), abs(W - half) / abs(half)
+    if e1 > 1e-9 or e2 > 1e-9:
+        raise Refuted(f"InElastic ({kind}), virgin elastic state: reported stored energy {got:.9g}, 1/2 u'Ku = {half:.9g} (relative difference {e1:.3e}); Elastic.Wdef {W:.9g}", cex=dict(kind=kind),
+                      signature=f"energy:InElastic:{kind}", replay=dict(confirmed=True, reported=got, half_uKu=half, elastic_Wdef=W))
+    return Verdict(DISCHARGED, backend="native run", detail=f"rel diff {e1:.1e}")
+
+
 def ob_reshape_coincidence():
     """a mesh whose number of elements equals its number of nodes (a closed band of triangles: 2k nodes, 2k elements): nodal values of an element-wise result are
     the values extrapolated to the nodes, not the element array handed back unchanged."""
@@ -550,6 +591,9 @@ def build(tier, seed):
     for algo in ("newmark", "hht", "midpoint"):
         obs.append(Ob(f"C16.reactions.dynamic.{algo}", ob_reactions_dynamic, (algo,), "X", ("EasyFEA/Simulations/_simu.py::_Simu.Calc_Reaction",), bound="one damped 2-D patch, 5 steps",
                       clause="reactions reported on the constrained boundary are the rows of K u + C v + M a there (damped dynamics)", timeout=300))
+    for kind in ("pe", "ps", "3d"):
+        obs.append(Ob(f"C16.energy.InElastic.{kind}", ob_energy_inelastic, (kind,), "X", ("EasyFEA/Simulations/_inelastic.py::InElastic._Calc_psi", "EasyFEA/Models/InElastic/_behavior.py::Behavior.Compute_psi"),
+                      bound="one star patch, one random state in the elastic range", clause="reported stored energy == 1/2 u'Ku == Elastic.Wdef (plane strain, plane stress, 3-D)", timeout=300))
     obs.append(Ob("C16.reshape.coincidence", ob_reshape_coincidence, (), "X", ("EasyFEA/Simulations/_simu.py::_Simu.Results_Reshape_values",), bound="one closed band of 12 triangles on 12 nodes",
                   clause="nodal form of an element-wise result on a mesh with as many elements as nodes", timeout=120))
     obs.append(Ob("canary.indices", ob_indices, (2, True), "P", expect=REFUTED, timeout=300))
